@@ -11,7 +11,7 @@ from __future__ import annotations
 import copy
 from collections import Counter
 
-from .kit import H, Trace, setup_repo_path, short, stream, weighted
+from .kit import pristine, H, Trace, setup_repo_path, short, stream, weighted
 from .gen import schema as S
 
 PROPERTY = "C04"
@@ -530,7 +530,7 @@ def minimise(v):
     key = (v["class"], v["signature"])
 
     def fails_ops(ops):
-        return any((x["class"], x["signature"]) == key for x in check_workload({"decls": w["decls"], "ops": ops}))
+        return any((x["class"], x["signature"]) == key for x in pristine(check_workload, {"decls": w["decls"], "ops": ops}))
 
     ops = ddmin(list(w["ops"]), fails_ops, 200) if len(w["ops"]) > 1 else w["ops"]
 
@@ -563,7 +563,7 @@ def minimise(v):
             if rops is None or not any(d["kind"] == "struct" for d in cand):
                 continue
             try:
-                ok = any((x["class"], x["signature"]) == key for x in check_workload({"decls": cand, "ops": rops}))
+                ok = any((x["class"], x["signature"]) == key for x in pristine(check_workload, {"decls": cand, "ops": rops}))
             except Exception:
                 ok = False
             if ok:
@@ -571,7 +571,7 @@ def minimise(v):
                 changed = True
                 break
     out = dict(v, workload={"decls": decls, "ops": ops}, minimised=True)
-    vs = [x for x in check_workload(out["workload"]) if (x["class"], x["signature"]) == key]
+    vs = [x for x in pristine(check_workload, out["workload"]) if (x["class"], x["signature"]) == key]
     if vs:
         out["message"] = vs[0]["message"]
         return out
